@@ -160,7 +160,7 @@ static void run_program(Instance &I) {
         const J &o = prog.a[pc]; std::string op = o.gets("op", ""); std::string nul = o.gets("null", ""); uint64_t d0 = sim_decision();
         bool cnt = counted(op); if (cnt) sim_count_allocs(1);
         // an application stops using a session whose creation/configuration/initialisation failed: it only tears it down
-        bool needs_handle = !(op == "init_handle" || op == "yield" || op == "session_end" || op == "release" || op == "stream_header_release");
+        bool needs_handle = !(op == "init_handle" || op == "yield" || op == "barrier" || op == "session_end" || op == "release" || op == "stream_header_release");
         if (o.geti("retry_only", 0)) {   // an application that retries a failed configuration once (e.g. after a transient allocation failure)
             if (!(I.setup_failed && I.handle_valid && I.last_failed_op == "set_param")) { if (cnt) sim_count_allocs(0); continue; }
             I.setup_failed = false;
@@ -261,6 +261,9 @@ static void run_program(Instance &I) {
             }
             if (want_recon) { int spins = 0; while (!I.eos_recon && spins < 200000) { long l2; if (!poll_recon(I, 1000000, false, false, l2)) { sim_yield(); spins++; } } if (!I.eos_recon) oracle_fail("recon_eos_missing", "recon EOS not delivered after packet EOS (bounded wait exhausted)"); }
             J ex = J::obj(); ex.set("got", got); hist(I, pc, op, last, d0, ex);
+        } else if (op == "barrier") {   // multi-instance worlds: wait (yielding) until n instances have reached barrier id
+            static int arrived[8]; int id = (int)o.geti("id", 0) & 7, need = (int)o.geti("n", 1);
+            arrived[id]++; while (arrived[id] < need) sim_yield(); hist(I, pc, op, 0, d0);
         } else if (op == "yield") {
             sim_app_stall((int)o.geti("n", 1)); hist(I, pc, op, 0, d0);
         } else if (op == "deinit") {
